@@ -65,6 +65,10 @@ add("C16", "exploration",
     "VectorSource, FileSource, SigMFSource (recording and archive) x data lengths 0,1,cap-1,cap,cap+1 and random up to 3 stream capacities x repeat in {0,1,2,3,infinite} x seeded drain schedules (none, 1, 1..100, all) on 1-2 page streams, so that repetitions are emitted in several pieces. Oracle: output = data repeated exactly r times; the EOF verdict is never returned before everything was emitted and comes within 2 further calls that had output space; an infinite repeat never returns EOF in 3000 calls; VectorSource marker tags (start, repeat=k, first) once per repetition on its first sample. Repeat API: random call sequences of again/done/count on finite(0..4) and infinite against a 10-line model of the documentation, no unwind.",
     "For empty data both EOF and silence are accepted for an infinite repeat. Files hold whole samples only.",
     "runtime monitoring: reference-model oracle over source x repeat x drain-schedule cases", "3/C16", "sources")
+add("C19", "exploration",
+    "The harness defines blocks with #[derive(rustradio_macros::Block)] (compiled with the working tree's macro crate): sync mode with 1..3 inputs x 1..3 outputs (default and into fields, a distinct output function and element type per output) and sync_tag mode (1x1 and 2x2 adding tags), and a non-sync derived block with packet and sample streams. Under drip-feed schedules with deliberately uneven inputs and output space every work() call is checked through the stream hooks: every input consumed and every output produced exactly min(shortest input, smallest output space); a wait verdict names an empty input / a full output; outputs arrive in declaration order with the right function; the first input's tags (plus added ones) reach every output once. The generated eof() is evaluated over all subsets of ended/drained inputs (3 copy inputs; copy + packet input), and new() must return packet and sample read ends in declaration order.",
+    "Only arities up to 3x3 and the attribute combinations listed. A macro defect that breaks compilation for some arity makes the whole harness build fail (reported as inconclusive, as happened for 3 inputs before the fix).",
+    "runtime monitoring: per-call conservation oracle over hook events for harness-defined derived blocks", "3/C19", "drip-feed")
 add("C12", "exploration",
     "Inputs carry uniquely keyed tags (0-5 per sample, clustered at likely split points); under drip-feed schedules the multiset (key, value, absolute output index) seen at the output must equal the expected mapping: identity for one-to-one blocks (first input only for multi-input blocks), both outputs of Tee, +delay for Delay, index/decimation for FirFilter, minus skip for Skip, identity for Hilbert/FftFilter/FftFilterFloat; added tags of VectorSource, CorrelateAccessCodeTag, BurstTagger, VecToStream on exactly the specified samples.",
     "Blocks documented as dropping tags (RationalResampler, RtlSdrDecode, AU codec, ...) are not judged. Tags on samples that never reach the output (FIR history tail) are expected to be absent.",
@@ -75,7 +79,7 @@ ALL = ["C%02d" % i for i in range(1, 21)]
 ENGINES = [
     dict(name="ring-history", path="harness/src/ring.rs", serves_properties=["C01", "C02"],
          kind_free_text="random/walker/boundary operation histories on one stream vs an executable queue model"),
-    dict(name="drip-feed", path="harness/src/drip.rs, duts.rs, blockprops.rs", serves_properties=["C08", "C09", "C10", "C12"],
+    dict(name="drip-feed", path="harness/src/drip.rs, duts.rs, blockprops.rs", serves_properties=["C08", "C09", "C10", "C12", "C19"],
          kind_free_text="harness plays both neighbours of one block on small streams; per-call observation through hook events"),
     dict(name="formats", path="harness/src/formats.rs", serves_properties=["C14"],
          kind_free_text="byte-format round trips through temp files, tar archives, FIFOs and loop-back sockets with controlled read sizes"),
